@@ -24,10 +24,36 @@ pub struct Atom {
     pub searches: Vec<u64>,
 }
 
-pub const KINDS: [&str; 16] = [
+pub const KINDS: [&str; 19] = [
     "down", "loop_if", "loop_or", "loop_iferror", "loop_optor", "map", "map_down", "nth", "take_while", "skip_until", "gen_len", "gen_map_len", "gen_get",
-    "seq_eq", "binom", "multinom",
+    "seq_eq", "binom", "multinom", "multinom3", "loop_optopt", "gen_windows",
 ];
+
+const PRIME: u128 = 1_000_003;
+
+fn pow_mod(mut b: u128, mut e: u128) -> u128 {
+    let mut r = 1u128;
+    b %= PRIME;
+    while e > 0 {
+        if e & 1 == 1 {
+            r = r * b % PRIME;
+        }
+        b = b * b % PRIME;
+        e >>= 1;
+    }
+    r
+}
+
+/// C(a, b) mod PRIME for a < PRIME
+fn binom_mod(a: u128, b: u128) -> u128 {
+    let mut num = 1u128;
+    let mut den = 1u128;
+    for i in 0..b {
+        num = num * ((a - i) % PRIME) % PRIME;
+        den = den * ((i + 1) % PRIME) % PRIME;
+    }
+    num * pow_mod(den, PRIME - 2) % PRIME
+}
 
 pub fn atom(kind: &str, k: usize, n: u64) -> Atom {
     let ni = n as i64;
@@ -222,6 +248,44 @@ pub fn atom(kind: &str, k: usize, n: u64) -> Atom {
                 searches: vec![n],
             }
         }
+        "multinom3" => {
+            // multinom([n + 3, n, n]) = C(2n + 3, n) * C(3n + 3, n); steps = sum - max = 2n (one budget per call)
+            let v = binom_mod(2 * n as u128 + 3, n as u128) * binom_mod(3 * n as u128 + 3, n as u128) % PRIME;
+            Atom {
+                kind: "multinom3",
+                param: n,
+                decl: String::new(),
+                expr: format!("multinom([{}, {n}, {n}]) % 1000003", n + 3),
+                value: v as i64,
+                calls: 0,
+                height: 0,
+                tail: 0,
+                searches: vec![2 * n],
+            }
+        }
+        "loop_optopt" => Atom {
+            kind: "loop_optopt",
+            param: n,
+            decl: format!("fn v_l{k}(v_n: int, v_a: int)->Optional<int>{{ if(v_n == 0, some(v_a), none()).or(v_l{k}(v_n - 1, v_a + 3)) }}"),
+            expr: format!("v_l{k}({n}, 0).value()"),
+            value: 3 * ni,
+            calls: 1,
+            height: 1,
+            tail: n,
+            searches: vec![],
+        },
+        "gen_windows" => Atom {
+            kind: "gen_windows",
+            param: n,
+            decl: String::new(),
+            // the windows adaptor examines every element it pulls; the consumer one per window
+            expr: format!("range({}).to_generator().windows(3).len()", n + 2),
+            value: ni,
+            calls: 0,
+            height: 0,
+            tail: 0,
+            searches: vec![n + 2],
+        },
         other => panic!("unknown atom kind {other}"),
     }
 }
